@@ -4,7 +4,7 @@
    table; and every connection a pool holds goes to that pool's address. *)
 From RcProxy Require Import Base.Bytes Base.Dec Gen.Generated Spec.RespGrammar
   Model.RespBuf Model.Commands Model.Crc16 Model.ClientCodec Model.ClientFeed Model.ServerCodec Model.Route
-  Model.Cluster Model.Proxy Proofs.ProxyProofs Proofs.ProxyServerProofs Proofs.ProxyWireProofs Proofs.ProxyLivenessProofs Proofs.ProxyOrderProofs.
+  Model.Cluster Model.Proxy Proofs.RouteProofs Proofs.ProxyProofs Proofs.ProxyServerProofs Proofs.ProxyWireProofs Proofs.ProxyLivenessProofs Proofs.ProxyOrderProofs.
 From Coq Require Import ZifyN ZifyNat ZifyBool.
 Open Scope N_scope.
 
@@ -254,22 +254,20 @@ Qed.
 Lemma PInv_pool st p : RInv st -> In p (pools st) -> pool_ok st p.
 Proof. intros (HP & _) Hin. unfold PInv in HP. rewrite Forall_forall in HP. apply HP, Hin. Qed.
 
-Definition targets_owned (st0 st : pst) (targets : list (N * nat)) : Prop :=
-  forall t, In t targets -> exists sv, lookup (snd t) (servers st) = Some sv /\ slot_master st0 (fst t) = Some (ps_addr sv).
+Definition targets_planned (plan : list (N * option bytes)) (st : pst) (targets : list (N * nat)) : Prop :=
+  forall t, In t targets -> exists sv, lookup (snd t) (servers st) = Some sv /\ In (fst t, Some (ps_addr sv)) plan.
 
-Lemma resolve_rinv body : forall st st' r, RInv st -> resolve st body = (st', r) ->
+Lemma resolve_rinv plan : forall st st' r, RInv st -> resolve st plan = (st', r) ->
   RInv st' /\ slots st' = slots st /\ msgs st' = msgs st /\ srv_mono st st' /\
-  (forall targets, r = inl targets -> targets_owned st st' targets).
+  (forall targets, r = inl targets -> targets_planned plan st' targets).
 Proof.
-  induction body as [|[slot f] rest IH]; intros st st' r H; cbn [resolve].
+  induction plan as [|[slot f] rest IH]; intros st st' r H; cbn [resolve].
   - intro E; inversion E; subst. split; [exact H|]. split; [reflexivity|]. split; [reflexivity|]. split; [intros x svx Hx; exact Hx|].
     intros targets Et. inversion Et; subst. intros t [].
-  - assert (Hsame : RInv st /\ slots st = slots st /\ msgs st = msgs st /\ srv_mono st st /\
-                    (forall targets, (inr ErrUnKnownSlot : list (N * nat) + bytes) = inl targets -> targets_owned st st targets)).
-    { split; [exact H|]. split; [reflexivity|]. split; [reflexivity|]. split; [intros x svx Hx; exact Hx | discriminate]. }
-    destruct (slot_master st slot) as [addr|] eqn:Esm; [|intro E; inversion E; subst; exact Hsame].
+  - destruct f as [addr|].
+    2:{ intro E; inversion E; subst. split; [exact H|]. split; [reflexivity|]. split; [reflexivity|]. split; [intros x svx Hx; exact Hx | discriminate]. }
     destruct (find_pool st addr) as [p|] eqn:Efp.
-    2:{ intro E; inversion E; subst. destruct Hsame as (A & B & C & D & _). repeat (split; [assumption|]). discriminate. }
+    2:{ intro E; inversion E; subst. split; [exact H|]. split; [reflexivity|]. split; [reflexivity|]. split; [intros x svx Hx; exact Hx | discriminate]. }
     destruct (find_pool_spec _ _ _ Efp) as [Hin Haddr].
     destruct (pool_get st p) as [st1 [s|]] eqn:Eg;
       destruct (pool_get_rinv _ _ _ _ H (PInv_pool _ _ H Hin) Eg) as (R1 & Sl1 & M1 & Mo1 & Hs1).
@@ -277,14 +275,13 @@ Proof.
         intro E; inversion E; subst.
       * split; [exact R2|]. split; [congruence|]. split; [congruence|]. split; [intros x svx Hx; apply Mo2, Mo1, Hx|].
         intros targets Et. inversion Et; subst. intros t [<-|Hin2].
-        -- cbn [fst snd]. destruct (Hs1 s eq_refl) as (sv & Hsv & Ha). exists sv. split; [apply Mo2, Hsv | rewrite Ha; exact Esm].
-        -- destruct (Ht2 l eq_refl t Hin2) as (sv & A & B). exists sv. split; [exact A|].
-           rewrite <- (slot_master_stable st st1) by exact Sl1. exact B.
+        -- cbn [fst snd]. destruct (Hs1 s eq_refl) as (sv & Hsv & Ha). exists sv. split; [apply Mo2, Hsv | rewrite Ha; left; reflexivity].
+        -- destruct (Ht2 l eq_refl t Hin2) as (sv & A & B). exists sv. split; [exact A | right; exact B].
       * split; [exact R2|]. split; [congruence|]. split; [congruence|]. split; [intros x svx Hx; apply Mo2, Mo1, Hx | discriminate].
     + intro E; inversion E; subst. split; [exact R1|]. split; [exact Sl1|]. split; [exact M1|]. split; [exact Mo1 | discriminate].
 Qed.
 
-Lemma targets_owned_enqueue st0 st t f targets : targets_owned st0 st targets -> targets_owned st0 (enqueue_out st t f) targets.
+Lemma targets_planned_enqueue plan st t f targets : targets_planned plan st targets -> targets_planned plan (enqueue_out st t f) targets.
 Proof.
   intros Ho t' Hin. destruct (Ho t' Hin) as (sv & A & B).
   unfold enqueue_out. destruct (lookup t (servers st)) as [svt|] eqn:Et; [|exists sv; auto].
@@ -293,19 +290,17 @@ Proof.
   rewrite E in A. rewrite Et in A. inversion A; subst. eexists. split; [reflexivity | exact B].
 Qed.
 
-Lemma fold_enqueue_rinv st0 mid pm : forall targets st, RInv st -> lookup mid (msgs st) = Some pm ->
-  (forall t, In t targets -> In (fst t, slot_master st0 (fst t)) (pm_route pm)) ->
-  targets_owned st0 st targets ->
+Lemma fold_enqueue_rinv mid pm : forall targets st, RInv st -> lookup mid (msgs st) = Some pm ->
+  targets_planned (pm_route pm) st targets ->
   RInv (fold_left (fun s (t : N * nat) => enqueue_out s (snd t) (FReq mid (fst t))) targets st).
 Proof.
-  induction targets as [|t ts IH]; intros st H Hm Hr Ho; cbn [fold_left]; [exact H|].
+  induction targets as [|t ts IH]; intros st H Hm Ho; cbn [fold_left]; [exact H|].
   apply IH.
   - apply enqueue_rinv; [exact H|]. intros sv mid0 slot0 Hl Ef _. inversion Ef; subst.
     destruct (Ho t (or_introl eq_refl)) as (sv' & A & B). rewrite Hl in A. inversion A; subst.
-    exists pm. split; [exact Hm|]. rewrite <- B. apply Hr. left; reflexivity.
+    exists pm. split; [exact Hm | exact B].
   - destruct (same_cm_enqueue_out st (snd t) (FReq mid (fst t))) as (_ & E & _). rewrite E. exact Hm.
-  - intros t' Ht'. apply Hr. right. exact Ht'.
-  - apply targets_owned_enqueue. intros t' Ht'. apply Ho. right. exact Ht'.
+  - apply targets_planned_enqueue. intros t' Ht'. apply Ho. right. exact Ht'.
 Qed.
 
 Lemma on_request_rinv st c m : WInv st -> RInv st -> RInv (on_request st c m).
@@ -318,7 +313,7 @@ Proof.
   - destruct (cf_password (cfg st)); [eapply RInv_rel; [exact HW | apply stable_local_reply | apply rel_local_reply | exact H]|].
     destruct (cm_body m) as [|[s0 f0] body]; [exact H|].
     destruct (beqb _ _); (eapply RInv_rel; [exact HW | apply stable_local_reply | apply rel_local_reply | exact H]).
-  - destruct (resolve st (by_slot (cm_body m))) as [st1 [targets|e]] eqn:Er.
+  - destruct (resolve st (route_plan st (cm_type m) (by_slot (cm_body m)))) as [st1 [targets|e]] eqn:Er.
     2:{ eapply RInv_rel; [exact HW | apply stable_local_reply | apply rel_local_reply | exact H]. }
     destruct (resolve_rinv _ _ _ _ H Er) as (R1 & Sl1 & M1 & _ & Ht). specialize (Ht targets eq_refl).
     destruct (resolve_winv _ _ _ _ HW Er) as (W1 & _).
@@ -329,11 +324,7 @@ Proof.
     { eapply RInv_rel; [exact W1 | | apply rel_new_msg | exact R1]. eapply stable_trans; [apply stable_set_msg | apply stable_bump_mid]. }
     match goal with |- RInv (match lookup c (clients ?x) with _ => _ end) => set (st3 := x) end.
     assert (R3 : RInv st3).
-    { unfold st3. apply (fold_enqueue_rinv st mid pm); [exact R2 | unfold st2; cbn [bump_mid set_msg msgs]; apply lookup_update_eq | | exact Ht].
-      intros t Hin. pose proof (resolve_slots _ _ _ _ Er) as Hslots.
-      assert (Hin2 : In (fst t) (map fst (by_slot (cm_body m)))) by (rewrite <- Hslots; apply in_map, Hin).
-      apply in_map_iff in Hin2. destruct Hin2 as (sf & Esf & Hsf). unfold pm. cbn [pm_route].
-      apply in_map_iff. exists sf. split; [rewrite Esf; reflexivity | exact Hsf]. }
+    { unfold st3. apply (fold_enqueue_rinv mid pm); [exact R2 | unfold st2; cbn [bump_mid set_msg msgs]; apply lookup_update_eq | exact Ht]. }
     destruct (lookup c (clients st3)); [|exact R3].
     match goal with |- RInv (set_client ?x _ _) => apply (RInv_frame x); try reflexivity end. exact R3.
 Qed.
@@ -502,7 +493,7 @@ Qed.
 Theorem step_rw st e st' : RW st -> step st e = ROk st' -> RW st'.
 Proof.
   intros [HW H] E. split; [eapply step_winv; eassumption|]. revert E.
-  destruct e as [c adm|c b totals|order|s b|c|s| |s|nodes newslots]; cbn [step].
+  destruct e as [c adm|c b totals|order|s b|c|s| |s|nodes newslots|ch]; cbn [step].
   - destruct (lookup c (clients st)) eqn:Ec; intro E; apply ROk_inj in E; subst st'; [exact H|].
     match goal with |- RInv (set_client ?x _ _) => apply (RInv_frame x); try reflexivity end. exact H.
   - intro E; apply ROk_inj in E; subst st'. apply ensure_dials_rw. unfold client_data.
@@ -533,6 +524,7 @@ Proof.
       * intros x Hx. destruct Hx.
     + intros s sv mid slot Hs Hin Hk. exact (HA s sv mid slot Hs Hin Hk).
     + exact HN.
+  - intro E; apply ROk_inj in E; subst st'. apply (RInv_frame st); try reflexivity. exact H.
 Qed.
 
 Theorem run_rw evs : forall st st', RW st -> run st evs = ROk st' -> RW st'.
@@ -578,9 +570,9 @@ Theorem routing_record_is_the_slot_table st c m st1 targets :
   (N.eqb (cm_type m) UNKNOWN || (Sentinel <=? cm_type m))%bool = false ->
   N.eqb (cm_type m) ReqTooLarge = false -> N.eqb (cm_type m) ReqWrongArgumentsNumber = false ->
   N.eqb (cm_type m) ReqPing = false -> N.eqb (cm_type m) ReqQuit = false -> N.eqb (cm_type m) ReqAuth = false ->
-  resolve st (by_slot (cm_body m)) = (st1, inl targets) ->
+  resolve st (route_plan st (cm_type m) (by_slot (cm_body m))) = (st1, inl targets) ->
   exists pm, lookup (next_mid st1) (msgs (on_request st c m)) = Some pm /\
-             pm_route pm = map (fun sf => (fst sf, slot_master st (fst sf))) (by_slot (cm_body m)).
+             pm_route pm = route_plan st (cm_type m) (by_slot (cm_body m)).
 Proof.
   intros T1 T2 T3 T4 T5 T6 Er. unfold on_request. rewrite T1, T2, T3, T4, T5, T6, Er.
   match goal with |- context [set_msg st1 (next_mid st1) ?x] => set (pm := x) end.
@@ -589,6 +581,65 @@ Proof.
   assert (E3 : msgs st3 = msgs (bump_mid (set_msg st1 (next_mid st1) pm))).
   { unfold st3. destruct (fold_enqueue_same targets (next_mid st1) (bump_mid (set_msg st1 (next_mid st1) pm))) as (_ & E & _). exact E. }
   destruct (lookup c (clients st3)); cbn [set_client msgs]; rewrite E3; cbn [bump_mid set_msg msgs]; apply lookup_update_eq.
+Qed.
+
+(* what a routing plan can say (C04, at the level of the loop): the node planned for a slot is the
+   master of the set that owns the slot in the table in force, or - only for a read that may go to
+   a replica (type up to the write marker, not a cursor scan), only with replica reads enabled - one of
+   the replicas of that set that has a pool.  This is Model/Route.v's route, i.e. the function the
+   route suite ties to listenServer.route, applied to the state of the loop. *)
+Theorem slot_target_by_role st ty slot req a : slot_target st ty slot req = Some a ->
+  exists m, slot_master st slot = Some m /\
+    (a = m \/
+     (In a (replicas_of (cfg st) m) /\ has_pool st a = true /\ cf_replica_reads (cfg st) = true /\
+      ty <= ReqWriteCmdStart /\ ty <> ReqHscan /\ ty <> ReqSscan /\ ty <> ReqZscan)).
+Proof.
+  unfold slot_target. destruct (slot_master st slot) as [m|]; [|discriminate].
+  destruct (chosen st req) as [c|]; [|intro E; inversion E; subst; exists a; auto].
+  set (slaves := map (fun r => {| r_addr := r; r_pool := has_pool st r; r_ban := false; r_lift_before_now := false |}) (replicas_of (cfg st) m)).
+  set (rnd := fun _ : nat => index_of c (live_slaves slaves)).
+  pose proof (route_member (negb (cf_replica_reads (cfg st))) ty m slaves rnd) as Hm.
+  destruct (route (negb (cf_replica_reads (cfg st))) ty m slaves rnd) as [addr sl] eqn:Er. cbn [fst].
+  intro E. exists m. split; [reflexivity|].
+  destruct Hm as [(_ & ->)|[(Hsl & r & Hin & Hr & Hl)|(_ & -> & _)]].
+  - left. destruct m; [discriminate | inversion E; reflexivity].
+  - right. assert (Ea : a = addr) by (destruct addr; [discriminate | inversion E; reflexivity]). subst a.
+    unfold slaves in Hin. apply in_map_iff in Hin. destruct Hin as (x & <- & Hx). cbn [r_addr] in Hr. subst addr.
+    unfold live in Hl. cbn [r_pool r_ban] in Hl. rewrite Bool.andb_false_l, Bool.andb_true_r in Hl.
+    split; [exact Hx|]. split; [exact Hl|].
+    assert (Hnm : forall P : Prop, (P -> route (negb (cf_replica_reads (cfg st))) ty m slaves rnd = (m, false)) -> ~ P).
+    { intros P HP HPp. rewrite (HP HPp) in Er. inversion Er; subst. discriminate. }
+    split; [|split; [|split; [|split]]].
+    + destruct (cf_replica_reads (cfg st)) eqn:Ec; [reflexivity|]. exfalso.
+      apply (Hnm True); [|exact I]. intros _. apply route_master_when. left. reflexivity.
+    + destruct (N.le_gt_cases ty ReqWriteCmdStart) as [Hle|Hgt]; [exact Hle|]. exfalso.
+      apply (Hnm True); [|exact I]. intros _. apply route_master_when. right. left. exact Hgt.
+    + intro Et. apply (Hnm True); [|exact I]. intros _. apply route_master_when. right. right. left. exact Et.
+    + intro Et. apply (Hnm True); [|exact I]. intros _. apply route_master_when. right. right. right. left. exact Et.
+    + intro Et. apply (Hnm True); [|exact I]. intros _. apply route_master_when. right. right. right. right. exact Et.
+  - discriminate.
+Qed.
+
+Theorem plan_by_role st ty body slot a : In (slot, Some a) (route_plan st ty body) ->
+  exists m, slot_master st slot = Some m /\
+    (a = m \/
+     (In a (replicas_of (cfg st) m) /\ has_pool st a = true /\ cf_replica_reads (cfg st) = true /\
+      ty <= ReqWriteCmdStart /\ ty <> ReqHscan /\ ty <> ReqSscan /\ ty <> ReqZscan)).
+Proof.
+  unfold route_plan. intro H. apply in_map_iff in H. destruct H as (sf & E & _). inversion E; subst.
+  eapply slot_target_by_role; eassumption.
+Qed.
+
+(* with replica reads switched off the plan is the slot table (node addresses are not empty) *)
+Theorem plan_is_the_slot_table st ty body : cf_replica_reads (cfg st) = false ->
+  (forall slot, slot_master st slot <> Some []) ->
+  route_plan st ty body = map (fun sf => (fst sf, slot_master st (fst sf))) body.
+Proof.
+  intros Hc Hne. unfold route_plan. apply map_ext. intro sf. f_equal. unfold slot_target.
+  pose proof (Hne (fst sf)) as Hn.
+  destruct (slot_master st (fst sf)) as [m|]; [|reflexivity].
+  destruct (chosen st (cf_req (snd sf))) as [c|]; [|reflexivity].
+  rewrite Hc. cbn [negb]. unfold route. cbn [fst]. destruct m; [exfalso; apply Hn; reflexivity | reflexivity].
 Qed.
 
 (* ---------- the two models of the ticker agree ---------- *)
